@@ -67,12 +67,12 @@ theorem ns_ddParen (e : Node) (args asg : List Node) (m : String) (sp : Span) :
     subst this; simp [ns_ddCall]
   · simp [ns_ddCall]; omega
 
-/-- the transform status / telemetry part of the state is untouched -/
-def TS (s' s : St) : Prop := s'.incs = s.incs ∧ s'.status = s.status
+/-- telemetry and status untouched; the out-of-fuel flag is never cleared -/
+def TS (s' s : St) : Prop := s'.incs = s.incs ∧ s'.status = s.status ∧ (s.fuelOut = true → s'.fuelOut = true)
 
-theorem TS.refl (s : St) : TS s s := ⟨rfl, rfl⟩
+theorem TS.refl (s : St) : TS s s := ⟨rfl, rfl, id⟩
 theorem TS.trans {a b c : St} (h1 : TS a b) (h2 : TS b c) : TS a c :=
-  ⟨h1.1.trans h2.1, h1.2.trans h2.2⟩
+  ⟨h1.1.trans h2.1, h1.2.1.trans h2.2.1, fun h => h1.2.2 (h2.2.2 h)⟩
 
 theorem isLiteralSum_ns : ∀ e : Node, isLiteralSum e = true → ns e = 0 := by
   intro e
@@ -96,9 +96,9 @@ theorem registerIdent_TS (n : Nat) (s : St) : TS (registerIdent n s).2 s := by
   simp only [registerIdent, run_modify]
   by_cases h : s.idents.contains n = true
   · rw [if_pos h]; exact TS.refl s
-  · rw [if_neg h]; exact ⟨rfl, rfl⟩
+  · rw [if_neg h]; exact ⟨rfl, rfl, id⟩
 
-theorem nextIdent_TS (s : St) : TS (nextIdent s).2 s := ⟨rfl, rfl⟩
+theorem nextIdent_TS (s : St) : TS (nextIdent s).2 s := ⟨rfl, rfl, id⟩
 
 theorem getTemporalIdent_ns (operand : Node) (asg : List Node) (sp : Span) (k : IdentKind) (s : St) :
     let r := getTemporalIdent operand asg sp k s
